@@ -65,6 +65,7 @@ STATEMENT_STATUS: Dict[str, str] = {
     "C16_rect_pts_cex": "proved counter-example", "C16_paint_path_statement_cex": "proved counter-example",
     "C16_paint_flags": "proved (regenerated table = ISO table 60)", "C16_re_path": "proved (regenerated do_re)",
     "C16_page_ctm": "proved (regenerated process_page table)",
+    "C16_never_raises": "proved (model: no exception on any token stream)",
     "C16_no_residue": "proved", "C16_n_paints_nothing": "proved",
     "C16_gstack_untouched": "proved", "C16_qQ_restores": "proved", "C16_q_saves": "proved",
     "C16_shapes_statement": "counter-example proved (C16_shapes_statement_cex); open findings",
